@@ -196,6 +196,11 @@ func (t *tr) expr(e ast.Expr) string {
 		if s, ok := goStringLit(x); ok {
 			return leanStr(s)
 		}
+		if x.Kind == token.INT {
+			if _, err := strconv.ParseUint(x.Value, 10, 32); err == nil {
+				return x.Value
+			}
+		}
 		failf(e, "unsupported literal %s", x.Value)
 	case *ast.Ident:
 		switch x.Name {
@@ -235,6 +240,11 @@ func (t *tr) expr(e ast.Expr) string {
 			op = "&&"
 		case token.LOR:
 			op = "||"
+		case token.LSS:
+			// loop indices and small integer literals only: decidable comparison on Nat
+			return "(Nat.blt " + t.atom(x.X) + " " + t.atom(x.Y) + ")"
+		case token.GTR:
+			return "(Nat.blt " + t.atom(x.Y) + " " + t.atom(x.X) + ")"
 		default:
 			failf(e, "unsupported binary operator %s", x.Op)
 		}
@@ -381,9 +391,13 @@ func (t *tr) rangeStmt(r *ast.RangeStmt) string {
 	key := ""
 	elemVar := "it__"
 	keyIdent, _ := r.Key.(*ast.Ident)
+	idxVar := ""
 	if r.Value != nil {
-		if keyIdent == nil || keyIdent.Name != "_" {
-			failf(r, "range with both index and value")
+		if keyIdent == nil {
+			failf(r, "unsupported range key")
+		}
+		if keyIdent.Name != "_" {
+			idxVar = keyIdent.Name
 		}
 		v, ok := r.Value.(*ast.Ident)
 		if !ok {
@@ -421,6 +435,9 @@ func (t *tr) rangeStmt(r *ast.RangeStmt) string {
 	}
 	if t.inAssign && strings.Contains(body, "Assignment.string") {
 		failf(r, "recursive rendering inside a loop that is not the plain contents loop")
+	}
+	if idxVar != "" {
+		return "(concatMapIdx (fun " + idxVar + " " + elemVar + " => " + body + ") " + list + ")"
 	}
 	return "(concatMap (fun " + elemVar + " => " + body + ") " + list + ")"
 }
